@@ -75,6 +75,18 @@ type InSpec struct {
 	Start     int64 `json:"start,omitempty"`   // explicit starting fee rate (sat/kw)
 	Immediate bool  `json:"immediate,omitempty"`
 	At        int32 `json:"at,omitempty"` // offered once every delivered block with offset <= At has been processed (0: before the first block)
+	// input KIND alphabet (family P). Kind: "" = to_local (CommitmentTimeLock,
+	// P2WSH), "anchor" = CommitmentAnchor (P2WSH), "tranchor" =
+	// TaprootAnchorSweepSpend (P2TR). ParentW > 0: the tx that created the
+	// input is still UNCONFIRMED and has this weight / paid this fee
+	// (input.UnconfParent() != nil, what lnd attaches to the anchor of a not yet
+	// confirmed commitment tx). Inputs with the same ParentID > 0 are outputs of
+	// the same parent tx (same txid). Excl > 0: offered with this exclusive group.
+	Kind      string `json:"kind,omitempty"`
+	ParentW   int64  `json:"parent_w,omitempty"`
+	ParentFee int64  `json:"parent_fee,omitempty"`
+	ParentID  int    `json:"parent_id,omitempty"`
+	Excl      uint64 `json:"excl,omitempty"`
 }
 
 // Scenario is one execution (and the replay artefact).
@@ -150,6 +162,7 @@ type swInput struct {
 	wt  input.StandardWitnessType
 	sd  input.SignDescriptor
 	req *wire.TxOut
+	par *input.TxInfo
 }
 
 func (i *swInput) OutPoint() wire.OutPoint          { return i.op }
@@ -159,7 +172,7 @@ func (i *swInput) WitnessType() input.WitnessType   { return i.wt }
 func (i *swInput) SignDesc() *input.SignDescriptor  { return &i.sd }
 func (i *swInput) BlocksToMaturity() uint32         { return 0 }
 func (i *swInput) HeightHint() uint32               { return 900 }
-func (i *swInput) UnconfParent() *input.TxInfo      { return nil }
+func (i *swInput) UnconfParent() *input.TxInfo      { return i.par }
 func (i *swInput) ResolutionBlob() fn.Option[tlv.Blob] {
 	return fn.None[tlv.Blob]()
 }
@@ -179,9 +192,31 @@ func outpoint(kind byte, n int) wire.OutPoint {
 	return wire.OutPoint{Hash: chainhash.Hash(h), Index: uint32(n)}
 }
 
+// inOutpoint is the outpoint of offered input n: output n of a tx of its own,
+// or of the shared parent tx ParentID.
+func inOutpoint(n int, s InSpec) wire.OutPoint {
+	if s.ParentID > 0 {
+		h := sha256.Sum256([]byte{'p', byte(s.ParentID), 'c', '1', '8'})
+		return wire.OutPoint{Hash: chainhash.Hash(h), Index: uint32(n)}
+	}
+	return outpoint('i', n)
+}
+
+func (sc *Scenario) op(n int) wire.OutPoint { return inOutpoint(n, sc.Inputs[n]) }
+
 func makeInput(n int, s InSpec) *swInput {
-	in := &swInput{op: outpoint('i', n), wt: input.CommitmentTimeLock}
+	in := &swInput{op: inOutpoint(n, s), wt: input.CommitmentTimeLock}
 	in.sd.Output = &wire.TxOut{Value: s.Value, PkScript: p2wsh(byte(0x10 + n))}
+	switch s.Kind {
+	case "anchor":
+		in.wt = input.CommitmentAnchor
+	case "tranchor":
+		in.wt = input.TaprootAnchorSweepSpend
+		in.sd.Output.PkScript = p2tr(byte(0x10 + n))
+	}
+	if s.ParentW > 0 {
+		in.par = &input.TxInfo{Fee: btcutil.Amount(s.ParentFee), Weight: lntypes.WeightUnit(s.ParentW)}
+	}
 	if s.ReqOut > 0 {
 		in.wt = input.HtlcOfferedTimeoutSecondLevelInputConfirmed
 		in.req = &wire.TxOut{Value: s.ReqOut, PkScript: p2wsh(byte(0x80 + n))}
@@ -489,7 +524,7 @@ func runScenario(t *testing.T, sc *Scenario, info func(string)) (obs *observatio
 		w.values[op] = v
 	}
 	for i, s := range sc.Inputs {
-		op := outpoint('i', i)
+		op := inOutpoint(i, s)
 		w.values[op] = s.Value
 		w.budgets[op] = s.Budget
 		w.reqOuts[op] = s.ReqOut
@@ -553,11 +588,15 @@ func runScenario(t *testing.T, sc *Scenario, info func(string)) (obs *observatio
 			if s.Start > 0 && !again {
 				p.StartingFeeRate = fn.Some(chainfee.SatPerKWeight(s.Start))
 			}
+			if s.Excl > 0 {
+				g := s.Excl
+				p.ExclusiveGroup = &g
+			}
 			what := "SweepInput"
 			if again {
 				what = "SweepInput (again, after the restart)"
 			}
-			w.logf("h=%d %s #%d value=%d budget=%d req_out=%d start=%d immediate=%v deadline=%d", h, what, i, s.Value, s.Budget, s.ReqOut, int64(p.StartingFeeRate.UnwrapOr(0)), p.Immediate, h0+sc.Delta)
+			w.logf("h=%d %s #%d value=%d budget=%d req_out=%d start=%d immediate=%v deadline=%d kind=%q excl=%d unconfirmed parent: weight=%d fee=%d (id %d)", h, what, i, s.Value, s.Budget, s.ReqOut, int64(p.StartingFeeRate.UnwrapOr(0)), p.Immediate, h0+sc.Delta, s.Kind, s.Excl, s.ParentW, s.ParentFee, s.ParentID)
 			rc, err := sw.SweepInput(in, p)
 			if err != nil {
 				panic(err)
@@ -829,6 +868,19 @@ func judge(sc *Scenario, obs *observation) (v verdict) {
 				f.exact = -1
 			}
 		}
+		// non-vacuity accounting for the input-kind alphabet: does the tx spend
+		// an input whose parent is unconfirmed, and does it pay a higher rate
+		// than that parent did (the only case in which a child could be asked to
+		// pay for its parent)?
+		for n, in := range sc.Inputs {
+			if in.ParentW > 0 && seen[sc.op(n)] {
+				if f.fee*in.ParentW > in.ParentFee*txWeight(tx) {
+					v.classes = append(v.classes, "tx-spends-input-with-unconfirmed-parent:tx-rate-above-parent-rate")
+				} else {
+					v.classes = append(v.classes, "tx-spends-input-with-unconfirmed-parent:tx-rate-at-or-below-parent-rate")
+				}
+			}
+		}
 		byKey[t.Key] = append(byKey[t.Key], i)
 		f.judged = true
 		v.nTx++
@@ -996,7 +1048,7 @@ func judge(sc *Scenario, obs *observation) (v verdict) {
 	// already published - unless the tx pays the ceiling min(budget/size, max)
 	// of the set it is now part of (the budget bound has precedence).
 	for n := range sc.Inputs {
-		op := outpoint('i', n)
+		op := sc.op(n)
 		lastPub, lastPubH, lastPubKeyN := int64(-1), int32(0), 0
 		for i, t := range obs.txs {
 			f := facts[i]
@@ -1042,7 +1094,7 @@ func judge(sc *Scenario, obs *observation) (v verdict) {
 		found := false
 		var all []wire.OutPoint
 		for i := range sc.Inputs {
-			all = append(all, outpoint('i', i))
+			all = append(all, sc.op(i))
 		}
 		for _, t := range obs.txs {
 			if t.Kind != "publish" {
@@ -1142,7 +1194,7 @@ func droppedSmallBudgetInput(obs *observation, sc *Scenario, key string, seq int
 	}
 	others := 0
 	for n := range sc.Inputs {
-		if op := outpoint('i', n).String(); members[op] && usedLater[op] {
+		if op := sc.op(n).String(); members[op] && usedLater[op] {
 			others++
 		}
 	}
@@ -1150,7 +1202,7 @@ func droppedSmallBudgetInput(obs *observation, sc *Scenario, key string, seq int
 		return -1, ""
 	}
 	for n, in := range sc.Inputs {
-		op := outpoint('i', n).String()
+		op := sc.op(n).String()
 		if !members[op] || usedLater[op] {
 			continue
 		}
@@ -1196,6 +1248,11 @@ func expectSweep(sc *Scenario, w *world) (bool, string) {
 	for _, s := range sc.Inputs {
 		if s.At != 0 {
 			// inputs arriving later are swept by txs of their own
+			return false, ""
+		}
+		if s.Excl != 0 && len(sc.Inputs) > 1 {
+			// an exclusive input is swept by a tx of its own: the one-set
+			// economics below do not describe the scenario
 			return false, ""
 		}
 	}
@@ -1918,8 +1975,299 @@ func spaces(thorough bool) []space {
 			}
 		}
 	}})
+	// ---- P: the input KIND alphabet - inputs whose parent tx is still
+	// unconfirmed (input.UnconfParent() != nil: what lnd offers when it CPFPs its
+	// own unconfirmed commitment tx through the anchor; any output of an
+	// unconfirmed tx in general). Kinds: an anchor (330 sat, budget far above its
+	// value, so the budget is borrowed from wallet UTXOs; P2WSH and taproot
+	// witness; exclusive group or not), a well-funded to_local-like input with an
+	// unconfirmed parent, pairs (anchor + ordinary input in one set / in two sets,
+	// two outputs of the SAME unconfirmed parent, two inputs with DIFFERENT
+	// unconfirmed parents). Parent lattice: parent weight {commitment without
+	// HTLCs, with 6 HTLCs} x parent fee RATE at 0, start-1, start, mid-ramp,
+	// ceiling, ceiling+1 of the schedule the set will get (start = explicit /
+	// estimator / relay, ceiling = min(budget/size, max) on the harness' own size
+	// of the set) - i.e. below, equal to and above both ends of the ramp. Crossed
+	// with both ceilings (max-bound at 3 sat/vb, budget-bound at 1000 sat/vb),
+	// estimator answers, an explicit start, immediate, every subset of the block
+	// heights, mempool rejects, publish failures of a whole block and a restart.
+	// Oracle unchanged: the fee is inputs - outputs of the tx handed to the wallet,
+	// the rate is that fee over the weight of that tx; whatever the parent paid is
+	// no excuse for exceeding budget or MaxFeeRate, nor for missing the ceiling.
+	sp = append(sp, space{"P:unconfirmed-parent-inputs", func(emit func(Scenario)) {
+		const walletIn = 4*41 + 109
+		const (
+			none  = 0 // confirmed parent
+			latt  = 1 // the parent under test (lattice point)
+			other = 2 // a second, different unconfirmed parent (low fee)
+		)
+		type base struct {
+			ins    []InSpec
+			par    []int // per input: none | latt | other
+			wallet []int64
+		}
+		// size and budget of the set that carries the lattice parent, on the
+		// harness' own arithmetic (wallet UTXOs attached smallest first until
+		// the borrowable value covers the budgets)
+		setOf := func(b base) (W, B int64) {
+			var set []InSpec
+			for i, in := range b.ins {
+				if b.par[i] == latt && in.Excl > 0 {
+					set = []InSpec{in}
+					break
+				}
+			}
+			if set == nil {
+				for _, in := range b.ins {
+					if in.Excl == 0 {
+						set = append(set, in)
+					}
+				}
+			}
+			var need, borrow int64
+			for _, in := range set {
+				B += in.Budget
+				if in.ReqOut > 0 {
+					need += in.Budget
+				} else {
+					borrow += in.Value - in.Budget
+				}
+			}
+			ws := append([]int64{}, b.wallet...)
+			sort.Slice(ws, func(i, j int) bool { return ws[i] < ws[j] })
+			n := int64(0)
+			for borrow < need && int(n) < len(ws) {
+				borrow += ws[n]
+				n++
+			}
+			W = syntheticWeight(&Scenario{Inputs: set}, changeTR) + n*walletIn
+			return
+		}
+		pWeights := []int64{1124, 1124 + 6*172}
+		type parent struct{ w, fee int64 }
+		lattice := func(b base, mx, s0 int64, reduced bool) []parent {
+			W, B := setOf(b)
+			ceil := B * 1000 / W
+			if mx*250 < ceil {
+				ceil = mx * 250
+			}
+			st := s0
+			if st > ceil {
+				st = ceil
+			}
+			rates := []int64{0, st - 1, st, (st + ceil) / 2, ceil, ceil + 1}
+			if reduced {
+				rates = []int64{0, st - 1, (st + ceil) / 2, ceil + 1}
+			}
+			switch {
+			case thorough && reduced:
+				rates = append(rates, 1, 10*ceil)
+			case thorough:
+				rates = append(rates, 1, relay, st+1, ceil-1, 10*ceil)
+			}
+			var out []parent
+			for wi, pw := range pWeights {
+				if reduced && wi > 0 && !thorough {
+					continue
+				}
+				for _, r := range dedup64(rates, 0) {
+					out = append(out, parent{pw, ceilDiv(r*pw, 1000)})
+				}
+			}
+			return out
+		}
+		build := func(b base, p parent) []InSpec {
+			ins := append([]InSpec{}, b.ins...)
+			for i := range ins {
+				switch b.par[i] {
+				case latt:
+					ins[i].ParentW, ins[i].ParentFee = p.w, p.fee
+				case other:
+					ins[i].ParentW, ins[i].ParentFee = pWeights[1], ceilDiv((relay-1)*pWeights[1], 1000)
+				}
+			}
+			return ins
+		}
+		anchor := func(kind string, budget int64, excl uint64) InSpec {
+			return InSpec{Kind: kind, Value: 330, Budget: budget, Excl: excl}
+		}
+		rich := func(budget int64) InSpec { return InSpec{Value: 1_000_000, Budget: budget} }
+		budgets := []int64{2_000, 100_000}
+		if thorough {
+			budgets = append(budgets, 300_000, 500)
+		}
+		type startEst struct {
+			start, est int64
+			err        bool
+		}
+		ses := []startEst{{0, relay, false}, {0, estIn, false}, {400, relay, false}}
+		if thorough {
+			ses = append(ses, startEst{0, 10_000_000, false}, startEst{0, 100, false}, startEst{0, 0, true}, startEst{2_000, relay, false})
+		}
+		s0of := func(x startEst) int64 {
+			if x.start > 0 {
+				return x.start
+			}
+			if x.err || x.est < relay {
+				return relay
+			}
+			return x.est
+		}
+
+		// P1: one input with an unconfirmed parent
+		var singles []base
+		for _, b := range budgets {
+			for _, wl := range [][]int64{{1_000_000}, {600, 50_000}} {
+				if wl[0] == 600 && b > 50_000 {
+					wl = []int64{600, 2 * b}
+				}
+				singles = append(singles,
+					base{[]InSpec{anchor("anchor", b, 7)}, []int{latt}, wl},
+					base{[]InSpec{anchor("anchor", b, 0)}, []int{latt}, wl})
+			}
+			singles = append(singles,
+				base{[]InSpec{anchor("tranchor", b, 7)}, []int{latt}, []int64{1_000_000}},
+				base{[]InSpec{rich(b)}, []int{latt}, nil})
+			if thorough {
+				singles = append(singles,
+					base{[]InSpec{anchor("anchor", b, 7)}, []int{latt}, nil},
+					base{[]InSpec{anchor("anchor", b, 7)}, []int{latt}, []int64{b + dust - 330, 700}},
+					base{[]InSpec{rich(b)}, []int{latt}, []int64{50_000}})
+			}
+		}
+		// block patterns of P: every subset of the heights for deadlines h..h+3
+		// (thorough: h+4); immediate up to h+2 (thorough: h+3); the estimator
+		// answers above the ceiling / below the floor / error and the high
+		// explicit start (thorough only) on the reduced lattice up to h+3
+		immMax := int32(2)
+		if thorough {
+			immMax = 3
+		}
+		for _, b := range singles {
+			for _, mx := range maxes {
+				for xi, x := range ses {
+					for _, p := range lattice(b, mx, s0of(x), xi >= 3) {
+						for _, imm := range []bool{false, true} {
+							for _, pt := range pats {
+								if pt.delta > 4 || imm && pt.delta > immMax || xi >= 3 && (imm || pt.delta > 3) {
+									continue
+								}
+								for _, bl := range pt.blocks {
+									ins := build(b, p)
+									ins[0].Start, ins[0].Immediate = x.start, imm
+									emit(Scenario{Kind: "pipe", Inputs: ins, Wallet: b.wallet, MaxFeeRateVB: mx, Relay: relay,
+										EstFee: x.est, EstErr: x.err, Delta: pt.delta, Blocks: bl})
+								}
+							}
+						}
+					}
+				}
+			}
+		}
+		// P1w (thorough): wide deadlines
+		if thorough {
+			for _, b := range singles {
+				for _, mx := range maxes {
+					for _, x := range ses[:3] {
+						for _, p := range lattice(b, mx, s0of(x), true) {
+							for _, pt := range wide {
+								for _, bl := range pt.blocks {
+									ins := build(b, p)
+									ins[0].Start = x.start
+									emit(Scenario{Kind: "pipe", Inputs: ins, Wallet: b.wallet, MaxFeeRateVB: mx, Relay: relay,
+										EstFee: x.est, Delta: pt.delta, Blocks: bl})
+								}
+							}
+						}
+					}
+				}
+			}
+		}
+
+		// P2: pairs
+		plain := InSpec{Value: 10_000, Budget: 3_000}
+		var pairs []base
+		for _, b := range budgets[:2] {
+			pairs = append(pairs,
+				base{[]InSpec{anchor("anchor", b, 0), plain}, []int{latt, none}, []int64{1_000_000}}, // one set, the ordinary input lends
+				base{[]InSpec{anchor("anchor", b, 7), plain}, []int{latt, none}, []int64{1_000_000}}, // two sets
+				base{[]InSpec{plain, anchor("tranchor", b, 0)}, []int{none, latt}, []int64{1_000_000}},
+			)
+			r1, r2 := rich(b), InSpec{Value: 300_000, Budget: b / 2}
+			r1.ParentID, r2.ParentID = 1, 1
+			pairs = append(pairs, base{[]InSpec{r1, r2}, []int{latt, latt}, nil}) // two outputs of the same unconfirmed tx
+			pairs = append(pairs, base{[]InSpec{rich(b), {Value: 300_000, Budget: b / 2}}, []int{latt, other}, nil})
+			if thorough {
+				a1, a2 := anchor("anchor", b, 7), anchor("anchor", b, 7)
+				pairs = append(pairs, base{[]InSpec{a1, a2}, []int{latt, other}, []int64{1_000_000, 2_000_000}}) // local + remote commitment anchors of one channel
+				pairs = append(pairs, base{[]InSpec{anchor("anchor", b, 0), {Value: 20_000, Budget: 1_000, ReqOut: 20_000}}, []int{latt, none}, []int64{1_000_000}})
+			}
+		}
+		rms := []uint32{0, 1}
+		if thorough {
+			rms = []uint32{0, 1, 3}
+		}
+		for _, b := range pairs {
+			for _, mx := range maxes {
+				for _, x := range ses[:2] {
+					for _, p := range lattice(b, mx, s0of(x), true) {
+						for _, pt := range pats {
+							if pt.delta > 4 {
+								continue
+							}
+							for _, bl := range pt.blocks {
+								for _, rm := range rms {
+									emit(Scenario{Kind: "pipe", Inputs: build(b, p), Wallet: b.wallet, MaxFeeRateVB: mx, Relay: relay,
+										EstFee: x.est, Delta: pt.delta, Blocks: bl, RejectMask: rm})
+								}
+							}
+						}
+					}
+				}
+			}
+		}
+
+		// P3: faults - every PublishTransaction of one or two blocks fails, or the
+		// node is restarted (the re-offered input carries its parent again)
+		fbases := []base{singles[0], singles[len(singles)-1], pairs[0], pairs[1]}
+		if thorough {
+			fbases = append(append([]base{}, singles...), pairs...)
+		}
+		fds := []int32{4}
+		if thorough {
+			fds = []int32{3, 5}
+		}
+		for _, b := range fbases {
+			for _, mx := range maxes {
+				for _, x := range ses[:2] {
+					for _, p := range lattice(b, mx, s0of(x), true) {
+						for _, d := range fds {
+							all := make([]int32, 0, d+1)
+							for k := int32(1); k <= d+1; k++ {
+								all = append(all, k)
+							}
+							for k := int32(1); k <= d; k++ {
+								type fault struct {
+									failAt  []int32
+									restart int32
+								}
+								fs := []fault{{failAt: []int32{k}}}
+								if k < d {
+									fs = append(fs, fault{failAt: []int32{k, k + 1}}, fault{restart: k})
+								}
+								for _, ft := range fs {
+									emit(Scenario{Kind: "pipe", Inputs: build(b, p), Wallet: b.wallet, MaxFeeRateVB: mx, Relay: relay,
+										EstFee: x.est, Delta: d, Blocks: all, PubFailAt: ft.failAt, Restart: ft.restart})
+								}
+							}
+						}
+					}
+				}
+			}
+		}
+	}})
 	// cheap, targeted spaces first so that a time cap cuts the big lattice last
-	order := map[string]int{"D": 0, "E": 1, "G": 2, "H": 3, "F": 4, "W": 5, "B": 6, "C": 7, "A2": 8, "A": 9}
+	order := map[string]int{"D": 0, "E": 1, "P": 2, "G": 3, "H": 4, "F": 5, "W": 6, "B": 7, "C": 8, "A2": 9, "A": 10}
 	sort.SliceStable(sp, func(i, j int) bool {
 		return order[strings.SplitN(sp[i].name, ":", 2)[0]] < order[strings.SplitN(sp[j].name, ":", 2)[0]]
 	})
@@ -2015,6 +2363,8 @@ func TestC18Pipe(t *testing.T) {
 						mu.Unlock()
 						continue
 					}
+					// (also for signatures listed as known findings, which get no replay file)
+					fmt.Printf("INFO pipe: first scenario with signature %s (space %s): %s\n", sig, it.space, scString(&sc))
 					run.Violation(sig, vi.what+"  ["+scString(&sc)+"]", sc)
 				}
 				if v.nTx >= 3 && len(v.viols) == 0 {
@@ -2038,6 +2388,11 @@ func TestC18Pipe(t *testing.T) {
 		}()
 	}
 	exhaustive := true
+	countOnly := os.Getenv("VERIF_C18_COUNT") != "" // development aid: print the size of each space, run nothing
+	if countOnly {
+		exhaustive = false
+		capHit = append(capHit, "VERIF_C18_COUNT set: scenarios counted, not run")
+	}
 	only := os.Getenv("VERIF_C18_SPACES") // development aid: comma-separated space letters, e.g. "H,G"
 	for _, sp := range spaces(run.Thorough()) {
 		if only != "" && !strings.Contains(","+only+",", ","+strings.SplitN(sp.name, ":", 2)[0]+",") {
@@ -2056,8 +2411,14 @@ func TestC18Pipe(t *testing.T) {
 				stopped = true
 				return
 			}
+			if countOnly {
+				return
+			}
 			ch <- item{sc, sp.name}
 		})
+		if countOnly {
+			fmt.Printf("INFO pipe: space %s has %d scenarios\n", sp.name, n)
+		}
 		if stopped {
 			exhaustive = false
 			capHit = append(capHit, fmt.Sprintf("time budget %v reached inside space %s after %d scenarios", budget, sp.name, n))
@@ -2069,7 +2430,7 @@ func TestC18Pipe(t *testing.T) {
 	cov := map[string]any{
 		"evaluations":               evals,
 		"distinct_nontrivial":       len(distinct),
-		"rule":                      "publisher: every scenario of the listed spaces (input (value,budget) lattices around each fee/dust/budget threshold +-1, required-output inputs, wallet top-ups, MaxFeeRate 3 and 1000 sat/vb, estimator at floor/in range/above ceiling/below floor/error, explicit starting rates, every subset of the block heights up to one past the deadline, wide deadlines 144/1008/default/1009, mempool-reject and publish-failure masks; 2-3 inputs sharing a deadline offered at different heights with explicit starting rates {none, low, high} each, budgets ordered both ways, immediate or not, with every PublishTransaction of one or two blocks failing (all sets in flight fail together and are regrouped) or a node restart (re-offered inputs seeded from their own mempool txs), judged per input; values at fee(rate)+dust+-1 for the start / start+1 / mid-ramp / ceiling rate of the schedule with deadlines h+5 and h+6 so that a bump fails mid-ramp and the set is retried twice before deadline-1) run on the real UtxoSweeper+BudgetAggregator+TxPublisher; an evaluation = one scenario; distinct_nontrivial = distinct observation hashes (sequence of (call, height, inputs, fee, weight, change?, answer) of the txs handed to the wallet) among scenarios where at least one tx was handed over",
+		"rule":                      "publisher: every scenario of the listed spaces (input (value,budget) lattices around each fee/dust/budget threshold +-1, required-output inputs, wallet top-ups, MaxFeeRate 3 and 1000 sat/vb, estimator at floor/in range/above ceiling/below floor/error, explicit starting rates, every subset of the block heights up to one past the deadline, wide deadlines 144/1008/default/1009, mempool-reject and publish-failure masks; 2-3 inputs sharing a deadline offered at different heights with explicit starting rates {none, low, high} each, budgets ordered both ways, immediate or not, with every PublishTransaction of one or two blocks failing (all sets in flight fail together and are regrouped) or a node restart (re-offered inputs seeded from their own mempool txs), judged per input; values at fee(rate)+dust+-1 for the start / start+1 / mid-ramp / ceiling rate of the schedule with deadlines h+5 and h+6 so that a bump fails mid-ramp and the set is retried twice before deadline-1; input KIND alphabet (space P): inputs whose parent tx is unconfirmed (input.UnconfParent() != nil) - a 330 sat anchor (P2WSH / taproot witness, exclusive group or not) whose budget is borrowed from wallet UTXOs, a well-funded input, pairs (anchor + ordinary input in one set or two, two outputs of the same unconfirmed parent, two different unconfirmed parents) - x parent weight {1124, 2156 wu} x parent fee rate {0, start-1, start, mid-ramp, ceiling, ceiling+1} of the set's own schedule x max-bound and budget-bound ceilings x estimator/explicit start x immediate x every subset of the block heights x mempool rejects, whole-block publish failures, restart) run on the real UtxoSweeper+BudgetAggregator+TxPublisher; an evaluation = one scenario; distinct_nontrivial = distinct observation hashes (sequence of (call, height, inputs, fee, weight, change?, answer) of the txs handed to the wallet) among scenarios where at least one tx was handed over",
 		"samples":                   samples.List(),
 		"outcome_classes":           classes,
 		"scenarios_per_space":       perSpace,
@@ -2080,10 +2441,24 @@ func TestC18Pipe(t *testing.T) {
 	if len(capHit) > 0 {
 		cov["caps_hit"] = capHit
 	}
+	{
+		var names []string
+		for k := range perSpace {
+			names = append(names, k)
+		}
+		sort.Strings(names)
+		line := ""
+		for _, k := range names {
+			line += fmt.Sprintf(" %s=%d", strings.SplitN(k, ":", 2)[0], perSpace[k])
+		}
+		fmt.Printf("INFO pipe: scenarios per space:%s; txs judged %d; deadline clause evaluated %d; txs spending an input with unconfirmed parent: paying above the parent's rate in %d scenarios, at or below in %d\n", line, txsJudged, ceilings,
+			classes["tx-spends-input-with-unconfirmed-parent:tx-rate-above-parent-rate"], classes["tx-spends-input-with-unconfirmed-parent:tx-rate-at-or-below-parent-rate"])
+	}
 	run.Assumptions = append(run.Assumptions,
 		"publisher: inputs are never spent/confirmed during a run (worst case for the ramp); witnesses are dummies of exactly the estimated size, so tx weight == estimated weight",
 		"publisher: goroutine interleavings inside one block handler are not enumerated; the sweeper is run to quiescence (synctest.Wait) before the publisher receives the same block",
 		"publisher: a restart keeps the sweeper store and the mempool (the successfully published txs no later successful publish conflicts with) and re-offers every input with its original budget and deadline but without immediate flag and explicit starting rate (both are set only through the BumpFee RPC, never by the contract resolvers that re-offer inputs at startup); in-memory retry rates are lost",
+		"publisher: an unconfirmed parent is described by (weight, fee) only, exactly what lnd's input.TxInfo carries; the parent never confirms during a run; what the parent paid is never credited to or charged against the sweep tx: fee and rate of a sweep are those of the transaction handed to the wallet",
 		"publisher: a below-dust remainder that cannot become a change output is allowed to go to fees on top of MaxFeeRate x weight (the property demands both 'no dust output' and 'spend all inputs'); such cases are counted in outcome_classes",
 	)
 	if code := run.Finish(cov); code != 0 {
